@@ -646,7 +646,7 @@ func main() {
 		return
 	}
 	res := lib.NewResult("C06", f)
-	n := 5000
+	n := 10000
 	if f.Thorough() {
 		n = 150000
 	}
@@ -718,8 +718,8 @@ func main() {
 				continue
 			case o.Skipped != "":
 				skipped++
-				res.AddDisagreement(lib.Disagreement{Kind: "spec", Input: o.Case.Texts, Go: o.Go.ParseErr, SpecVerdict: "violates",
-					What: "a generated module was rejected by Modules.Parse: " + o.Go.ParseErr, Replay: o.Case})
+				res.AddDisagreement(lib.Disagreement{Kind: "obligation", Input: o.Case.Texts, Go: o.Go.ParseErr, SpecVerdict: "",
+					What: "a generated module was rejected by Modules.Parse (the generator only writes statements goyang accepted when this runner was written): " + o.Go.ParseErr, Replay: o.Case})
 				continue
 			case o.Outside != "":
 				outside++
